@@ -45,4 +45,8 @@ theorem kinds :
 /-- the error a refused MsgSend returns after CloseSend -/
 theorem sendClosed : Generated.streamSentinels.lookup "sendClosed" = some "drpc.Error.New:send closed" := by decide
 
+/-! constructors, accessors and small helpers -/
+theorem x_drpcerr_err_shallowEqual : Generated.fp_drpcerr_err_shallowEqual = Expected.fp_drpcerr_err_shallowEqual := by decide
+theorem x_drpcerr_err_codeErr_Error : Generated.fp_drpcerr_err_codeErr_Error = Expected.fp_drpcerr_err_codeErr_Error := by decide
+
 end Drpc.Tie.C10
